@@ -18,7 +18,7 @@ RULE = ("a hostile packet recipe (templates: V2 response, V3 handshake reply, V3
         "operators: header fields set to boundary values, ciphertext length not a multiple of 16, valid signature/tag recomputed "
         "over random or truncated ciphertext, bad PKCS#7 under a valid signature, empty payload, every type nibble, wrong key, "
         "clear data, splice/concatenate, bursts of 1100/2600 identical small packets in one delivery for every type nibble, arbitrary segmentation) is sent by the model device at a protocol phase (V2 send; V3 "
-        "handshake, data after authentication, re-authentication after 12 h; or pushed unsolicited on an idle established connection before the next call, after which the peer may stay silent for the whole retry budget) to one API level (LAN.authenticate/LAN.send, "
+        "handshake, data after authentication, re-authentication after 12 h; or pushed unsolicited on an idle established connection before the next call, after which the peer may stay silent for the whole retry budget; optionally the same call is repeated once or twice afterwards with the peer answering normally) to one API level (LAN.authenticate/LAN.send, "
         "Device.authenticate/Device._send_command, AirConditioner.refresh). Oracle: LAN calls end in list-of-bytes / ProtocolError "
         "(incl. AuthenticationError) / TimeoutError; Device.authenticate only AuthenticationError; Device._send_command returns a "
         "list; refresh() does not raise when the transport produced no frame. Non-trivial: hostile bytes pass marker+minimum "
@@ -132,12 +132,24 @@ def check_case(case: dict):
             else:
                 armed["on"] = True
             out["call"] = "send"
-            if api == "lan":
-                out["result"] = await obj.send(FRAME)
-            elif api == "device":
-                out["result"] = await obj._send_command(GetStateCommand())
-            else:
-                out["result"] = await obj.refresh()
+            for attempt in range(1 + case.get("again", 0)):
+                # (with "again": the same call is repeated after the hostile exchange, the peer answering normally: what the hostile
+                # packet left behind in the object must not break the contract of the following calls either)
+                if attempt:
+                    dev.on_data = None
+                    armed["on"] = False
+                    out.pop("exc", None)
+                try:
+                    if api == "lan":
+                        out["result"] = await obj.send(FRAME)
+                    elif api == "device":
+                        out["result"] = await obj._send_command(GetStateCommand())
+                    else:
+                        out["result"] = await obj.refresh()
+                except (ProtocolError, TimeoutError) as e:
+                    out["exc"] = e
+                    if api != "lan":
+                        break
         except BaseException as e:
             out["exc"] = e
         finally:
@@ -212,7 +224,7 @@ def _nontrivial(case) -> bool:
 
 def _run_one(ctx, case):
     import json
-    key = hash((json.dumps(case["hostile"], sort_keys=True), case["version"], case["phase"], case["api"], tuple(case.get("cuts", [])), case.get("delay"), case.get("tick"), case.get("debug"), case.get("then_close"), case.get("reset"), case.get("silent")))
+    key = hash((json.dumps(case["hostile"], sort_keys=True), case["version"], case["phase"], case["api"], tuple(case.get("cuts", [])), case.get("delay"), case.get("tick"), case.get("debug"), case.get("then_close"), case.get("reset"), case.get("silent"), case.get("again")))
     nt = _nontrivial(case)
     cls = f"v{case['version']}/{case['phase']}/{case['api']}"
     ctx.case(key, nt, cls=cls)
@@ -307,6 +319,15 @@ def _catalogue():
                 for api in ("lan", "device"):
                     r = {"t": "v3", "ptype": pt, "inner": {"t": "raw", "data": bytes(64).hex()}, "enc": "clear", "tag": "none"}
                     cases.append({"version": 3, "phase": "auth", "api": api, "hostile": r, "cuts": [], "delay": d, "tick": tick})
+    # well-formed, correctly tagged responses whose header fields sit at their boundaries (counter 0xFFFF / 0x0FFF / 0, pad
+    # nibble 0 / 15), followed by two more ordinary exchanges on the same object
+    for cnt in (0, 1, 0x0FFF, 0x1000, 0x7FFF, 0x8000, 0xFFFE, 0xFFFF):
+        for api in ("lan", "device", "ac"):
+            for phase in ("send", "idle"):
+                cases.append({"version": 3, "phase": phase, "api": api, "cuts": [], "again": 2,
+                              "hostile": {"t": "v3", "ptype": 3, "cnt": cnt, "inner": {"t": "v2"}, "enc": "ok", "tag": "ok"}})
+    for r in v3[:24] + v2[:8]:
+        cases.append({"version": 3 if r["t"] == "v3" else 2, "phase": "send", "api": ["lan", "device", "ac"][len(cases) % 3], "cuts": [], "hostile": r, "again": 1})
     # a well-formed unsolicited packet (or a hostile one) is queued on the idle connection, then the peer stays silent
     for version, recs in ((2, v2[:6] + [{"t": "v2"}]), (3, v3[:10] + [{"t": "v3", "ptype": 3, "inner": {"t": "v2"}, "enc": "ok", "tag": "ok"}])):
         for r in recs:
@@ -349,7 +370,7 @@ def run(ctx) -> None:
             "version": st.just(version), "phase": st.sampled_from(phases), "api": st.sampled_from(["lan", "lan", "device", "ac"]),
             "hostile": hostile.recipes(version), "cuts": gens.cut_sets(200, 4)},
             optional={"delay": st.sampled_from([0.05, 1.0, 1.9985, 1.999, 1.9995, 2.0, 2.0005, 3.999, 5.9995]), "tick": st.sampled_from([0.0, 0.001]),
-                      "debug": st.sampled_from([False, False, False, True]), "silent": st.booleans(), "then_close": st.sampled_from([0.0, 0.3, 1.9, 2.5]), "reset": st.booleans()}).map(
+                      "debug": st.sampled_from([False, False, False, True]), "silent": st.booleans(), "again": st.sampled_from([0, 0, 1, 2]), "then_close": st.sampled_from([0.0, 0.3, 1.9, 2.5]), "reset": st.booleans()}).map(
                 lambda c: dict(c, api="lan") if (c["api"] == "ac" and c["phase"] == "auth") else c)
 
     ctx.hyp("v3", cases(3), lambda c: _run_one(ctx, c), ctx.n(6000, 400000))
